@@ -327,6 +327,23 @@ pub fn run(ctx: &Ctx) -> i32 {
             texts.push(format!("-printf '%{d}\\n'"));
             texts.push(format!("-name a -fprintf f '%{d}'"));
         }
+        // the \\c escape (stop printing here): refused, or compiled with that meaning — never
+        // compiled into something else (a backslash and a letter)
+        let clear_texts = ["-printf 'a\\cb'", "-printf '%p\\c'", "-name x -fprintf f '%p\\c tail\\n'", "-printf '\\c'"];
+        for text in clear_texts {
+            if let (Spec::Accept { tree, .. }, crate::subject::P::Ok(o, e)) = (speclib::textspec::parse(text), crate::subject::parse_real(text)) {
+                if let C::Ok(_) = compile_render(&e, &o, "/dev") {
+                    let mut scratch = Acc::new();
+                    if let Err(m) = crate::props::c02::validate(&tree, &e, &mut scratch) {
+                        acc.violate(Violation::new(
+                            "C12:inexpressible-construct-compiled:Clear:from-text",
+                            format!("{text:?} compiles, but not with the meaning of \\c: {}: {}", m.aspect, m.detail),
+                            json!({"kind": "text-clear", "input": text}),
+                        ));
+                    }
+                }
+            }
+        }
         let mut t = Acc::new();
         for text in &texts {
             let Spec::Accept { tree, .. } = speclib::textspec::parse(text) else { continue };
